@@ -50,6 +50,12 @@ def run(c):
             obs = rk.run_scenario(init, "gated_user_send")
             batch.append(obs)
             c.case(key=(init, "gated_user_send", 1), sample=obs if init == "client" and rep == 0 else None)
+    # a channel-open confirmation in flight while a second user thread opens a channel during the exchange
+    for init in ("client",):      # open_channel is the same code in both roles; a client refuses server-opened sessions
+        for rep in range(1 if c.quick else 3):
+            obs = rk.run_scenario(init, "open_confirm_inflight")
+            batch.append(obs)
+            c.case(key=(init, "open_confirm_inflight", 1))
     clean = [{k: v for k, v in o.items() if k not in ("excs",)} for o in batch]
     res, _ = c.trace("Rekey_Trace", clean)
     if len(res["DONE"]) != len(batch):
